@@ -385,11 +385,16 @@ func (c18RPCLogger) Tracef(string, ...any) {}
 func (c18RPCLogger) Warnf(string, ...any)  {}
 
 type c18Scn struct {
-	Kind   string  `json:"kind"` // "client"
+	Kind   string  `json:"kind"` // "client" | "concurrent"
 	NAccts int     `json:"naccts"`
 	MinMs  int     `json:"min_ms"`
 	MaxMs  int     `json:"max_ms"`
-	Ops    []c18Op `json:"ops"`
+	Ops    []c18Op `json:"ops,omitempty"`
+	// kind "concurrent": that many clients (NAccts accounts each) subscribe
+	// at the same time against one auctioneer, then the auctioneer fails all
+	// streams Rounds times and every client re-subscribes concurrently
+	Clients int `json:"clients,omitempty"`
+	Rounds  int `json:"rounds,omitempty"`
 }
 
 // c18OpResult is what was observed for one op after the client went quiet.
@@ -441,6 +446,9 @@ func c18RunScenario(scn c18Scn, uniq int) *c18ScnResult {
 }
 
 func c18RunScenarioWith(scn c18Scn, uniq int, hooks *c18Hooks) *c18ScnResult {
+	if scn.Kind == "concurrent" {
+		return c18RunConcurrent(scn, uniq)
+	}
 	if hooks == nil {
 		hooks = &c18Hooks{}
 	}
@@ -881,6 +889,186 @@ func c18RunScenarioWith(scn c18Scn, uniq int, hooks *c18Hooks) *c18ScnResult {
 	return res
 }
 
+// c18RunConcurrent: several real clients (each under its own real
+// serverHandler) authenticate their accounts simultaneously against one
+// verifying in-process auctioneer; then all streams are failed at once and
+// every client re-subscribes concurrently. Oracle: the auctioneer could verify
+// every handshake, and in the end every account is subscribed exactly once on
+// its client's newest live stream. No model line (schedule dependent).
+func c18RunConcurrent(scn c18Scn, uniq int) *c18ScnResult {
+	res := &c18ScnResult{Lines: [][2]string{{"C18 cl reset", "ok"}}}
+	var activity int64
+	touch := func() { atomic.StoreInt64(&activity, time.Now().UnixNano()) }
+	touch()
+	srv := &c18Server{byKey: map[string]int{}, activity: &activity}
+	signer := &c18Signer{byLoc: map[keychain.KeyLocator]*c18Acct{}}
+	K := scn.Clients
+	accts := make([][]*c18Acct, K)
+	for k := range accts {
+		for i := 0; i < scn.NAccts; i++ {
+			id := len(srv.pubs)
+			a := c18MakeAcct(uniq*8 + 100 + 4000*(k+1) + i)
+			accts[k] = append(accts[k], a)
+			srv.byKey[string(a.pub[:])] = id
+			srv.pubs = append(srv.pubs, a.desc.PubKey)
+			signer.byLoc[a.desc.KeyLocator] = a
+		}
+	}
+	lis := bufconn.Listen(1 << 16)
+	gs := grpc.NewServer()
+	auctioneerrpc.RegisterChannelAuctioneerServer(gs, srv)
+	go func() { _ = gs.Serve(lis) }()
+	defer gs.Stop()
+
+	clients := make([]*auctioneer.Client, K)
+	var stops []func(time.Duration) bool
+	for k := range clients {
+		cl, err := auctioneer.NewClient(&auctioneer.Config{
+			ServerAddress: "passthrough:///verif",
+			Insecure:      true,
+			DialOpts: []grpc.DialOption{grpc.WithContextDialer(
+				func(ctx context.Context, _ string) (net.Conn, error) { return lis.DialContext(ctx) },
+			)},
+			Signer:       signer,
+			MinBackoff:   time.Duration(scn.MinMs) * time.Millisecond,
+			MaxBackoff:   time.Duration(scn.MaxMs) * time.Millisecond,
+			BatchSource:  c18NoBatch{},
+			BatchVersion: order.LatestBatchVersion,
+		})
+		if err == nil {
+			err = cl.Start()
+		}
+		if err != nil {
+			res.Bad = append(res.Bad, "client setup: "+err.Error())
+			return res
+		}
+		clients[k] = cl
+		stops = append(stops, pool.VerifC18ServerHandler(cl, nil))
+	}
+	// other users of the auth functions in the same process keep hashing
+	// (e.g. the sidecar acceptor's client)
+	pressure := make(chan struct{})
+	var pwg sync.WaitGroup
+	for p := 0; p < 2; p++ {
+		pwg.Add(1)
+		go func(p int) {
+			defer pwg.Done()
+			var k [33]byte
+			var n [32]byte
+			k[0] = byte(p)
+			for {
+				select {
+				case <-pressure:
+					return
+				default:
+				}
+				n = account.CommitAccount(k, n)
+			}
+		}(p)
+	}
+	settle := func() {
+		quiet, last := 0, atomic.LoadInt64(&activity)
+		for quiet < 40+3*scn.MaxMs {
+			time.Sleep(time.Millisecond)
+			if a := atomic.LoadInt64(&activity); a != last {
+				last, quiet = a, 0
+			} else {
+				quiet++
+			}
+		}
+	}
+	// phase 1: everybody subscribes at once
+	start := make(chan struct{})
+	var wg sync.WaitGroup
+	var mu sync.Mutex
+	for k := range clients {
+		wg.Add(1)
+		go func(k int) {
+			defer wg.Done()
+			<-start
+			for _, a := range accts[k] {
+				done := make(chan error, 1)
+				go func() { done <- clients[k].StartAccountSubscription(context.Background(), a.desc) }()
+				select {
+				case err := <-done:
+					if err != nil {
+						mu.Lock()
+						res.Bad = append(res.Bad, fmt.Sprintf("client %d: StartAccountSubscription failed without any fault: %v", k, err))
+						mu.Unlock()
+						return
+					}
+				case <-time.After(3 * time.Second):
+					mu.Lock()
+					res.Bad = append(res.Bad, fmt.Sprintf("client %d: StartAccountSubscription did not return", k))
+					mu.Unlock()
+					return
+				}
+			}
+		}(k)
+	}
+	close(start)
+	wg.Wait()
+	settle()
+	// phase 2: all streams fail at once, all clients re-subscribe concurrently
+	for round := 0; round < scn.Rounds && len(res.Bad) == 0; round++ {
+		srv.mu.Lock()
+		for _, st := range srv.streams {
+			if st.ended == "" {
+				select {
+				case st.ctl <- "err":
+				default:
+				}
+			}
+		}
+		srv.mu.Unlock()
+		touch()
+		settle()
+	}
+	close(pressure)
+	pwg.Wait()
+
+	// ---- oracle ----
+	srv.mu.Lock()
+	cnt := map[int]int{}
+	for _, st := range srv.streams {
+		for _, b := range st.bad {
+			res.Bad = append(res.Bad, "auctioneer could not verify a handshake made while other clients were authenticating: "+b)
+		}
+		if st.ended == "" {
+			for _, a := range st.success {
+				cnt[a]++
+			}
+		}
+	}
+	nstreams := len(srv.streams)
+	srv.mu.Unlock()
+	if len(res.Bad) == 0 {
+		for id := range srv.pubs {
+			if cnt[id] != 1 {
+				res.Bad = append(res.Bad, fmt.Sprintf("account %d is subscribed %d times on live streams after %d concurrent reconnect rounds of %d clients", id, cnt[id], scn.Rounds, K))
+				break
+			}
+		}
+	}
+	if len(res.Bad) > 0 {
+		res.BadKey = "C18/client/concurrent-handshakes"
+	}
+	res.Trace = []string{fmt.Sprintf("concurrent clients=%d accts=%d rounds=%d streams=%d bad=%d", K, scn.NAccts, scn.Rounds, nstreams, len(res.Bad))}
+	for k, cl := range clients {
+		stopped := make(chan struct{})
+		go func() { _ = cl.Stop(); close(stopped) }()
+		select {
+		case <-stopped:
+		case <-time.After(3 * time.Second):
+			res.StopHung = true
+		}
+		if !stops[k](time.Second) {
+			res.StopHung = true
+		}
+	}
+	return res
+}
+
 // c18GenScenario draws one fault scenario.
 func c18GenScenario(r *Run) c18Scn {
 	scn := c18Scn{Kind: "client", NAccts: 1 + r.Rng.Intn(4), MinMs: 1 + r.Rng.Intn(2)}
@@ -1088,6 +1276,9 @@ func c18Clients(r *Run, scns []c18Scn) {
 	}
 	for i, res := range results {
 		r.Evaluations++
+		if scns[i].Kind == "concurrent" {
+			r.Count("client/concurrent-scenario")
+		}
 		r.Count("client/scenario")
 		for j, op := range scns[i].Ops {
 			if j >= len(res.Ops) {
